@@ -525,3 +525,37 @@ Definition c15_oracle (c : sx) (impl : list ev) : bool :=
   | [EvPanic] | [EvBytes _; EvPanic] => match c with SL [x; _] => match expect false x with Some _ => false | None => true end | _ => false end
   | _ => false
   end.
+
+(* ------------------------------------------------------------------ C18: caller-controlled counts / sizes that do not fit *)
+Definition path_too_long (p : sx) : bool :=
+  match sx_bytes p with
+  | Some t => let root := match t with ch :: _ => ch =? 0x5C | [] => false end in
+              Nat.ltb 255 (length (spec_split (if root then tl t else t)))
+  | None => false
+  end.
+
+(* does some element count, argument count, length or range size of the tree exceed what its encoded field can hold? *)
+Fixpoint oversize (s : sx) {struct s} : bool :=
+  match s with
+  | SA _ => false
+  | SL l =>
+      let any := (fix any (l : list sx) : bool := match l with [] => false | x :: r => oversize x || any r end) in
+      match l with
+      | [SA 7; p] => path_too_long p
+      | [SA 11; b] => match sx_bytes b with Some t => 2 ^ 28 <=? N.of_nat (length t) | None => false end
+      | [SA 21; SA w; _; _; _; SA min; SA max; _] => (max <? min) || (2 ^ w <=? max - min + 1)
+      | [SA 44; p; SA ar; _; SL ks] => path_too_long p || (7 <? ar) || any ks
+      | [SA 51; p; _; _; _; SL es] =>
+          path_too_long p || existsb (fun e => match e with
+                                               | SL [SA 0; _; SA len] | SL [SA 1; SA len] => 2 ^ 28 <=? len
+                                               | _ => false end) es
+      | [SA 60; SL ks] | [SA 61; SL ks] => Nat.ltb 255 (length ks) || any ks
+      | SA 40 :: p :: r | SA 41 :: p :: r | SA 42 :: p :: r | SA 43 :: p :: r | SA 45 :: p :: r | SA 46 :: p :: r
+      | SA 47 :: p :: r | SA 48 :: p :: r | SA 49 :: p :: r | SA 50 :: p :: r => path_too_long p || any r
+      | _ => any l
+      end
+  end.
+
+(* C18 on components 40 / 4 / 2: an oversize input must be refused, in whichever build profile produced [impl] *)
+Definition c18_aml_oracle (c : sx) (impl : list ev) : bool :=
+  if oversize c then match impl with [EvPanic] => true | _ => false end else true.
